@@ -686,6 +686,15 @@ func (m *Machine) exec(th *Thread, f *Frame, instr ssa.Instruction) {
 	case *ssa.DebugRef:
 	case *ssa.Alloc:
 		t := in.Type().(*types.Pointer).Elem()
+		if at, ok := t.Underlying().(*types.Array); ok && in.Comment == "varargs" && isByte(at.Elem()) {
+			// the argument array of append(b, 'x', ...): element-wise, so that single bytes can be stored
+			e := make([]Value, at.Len())
+			for i := range e {
+				e[i] = BVC(8, 0)
+			}
+			f.env[in] = Ptr{O: m.newObj(&ArrayV{E: e}, in.Comment)}
+			break
+		}
 		f.env[in] = Ptr{O: m.newObj(m.zero(t), in.Comment)}
 	case *ssa.BinOp:
 		f.env[in] = m.binop(in.Op, m.get(f, in.X), m.get(f, in.Y), in.X.Type(), in.Y.Type())
@@ -776,9 +785,9 @@ func (m *Machine) exec(th *Thread, f *Frame, instr ssa.Instruction) {
 		et := in.Type().Underlying().(*types.Slice).Elem()
 		if isByte(et) && m.Domain != DomArray {
 			if cp == 0 || ln == 0 {
-				f.env[in] = ByteSlice{T: m.strLit("")}
+				f.env[in] = m.freshBytes(m.strLit(""))
 			} else {
-				f.env[in] = ByteSlice{T: m.zeroBytes(ln)}
+				f.env[in] = m.freshBytes(m.zeroBytes(ln))
 			}
 			break
 		}
@@ -1081,7 +1090,7 @@ func (m *Machine) convert(x Value, from, to types.Type) Value {
 				if m.Domain == DomArray {
 					return m.stringToByteArraySlice(x.(*Term))
 				}
-				return ByteSlice{T: x.(*Term)}
+				return m.freshBytes(x.(*Term))
 			}
 			panic(m.unsupported("string to %s", to))
 		}
@@ -1216,13 +1225,20 @@ func (m *Machine) slice(f *Frame, in *ssa.Slice) Value {
 		if lot == nil && hit == nil {
 			return a
 		}
+		lo0 := lot == nil || (lot.IsConst() && lot.U == 0)
 		if a.Nil {
+			// nil[:0] is nil: no backing array (other bounds panic in Go; strSlice reports them)
+			if hit == nil || (hit.IsConst() && hit.U == 0) {
+				if lo0 {
+					return a
+				}
+			}
 			a = ByteSlice{T: m.strLit("")}
 		}
-		if hit != nil && hit.IsConst() && hit.U == 0 && (lot == nil || (lot.IsConst() && lot.U == 0)) {
-			return ByteSlice{T: m.strLit(""), Resliced: true} // x[:0]: empty, but keeps x's backing array
+		if hit != nil && hit.IsConst() && hit.U == 0 && lo0 {
+			return ByteSlice{T: m.strLit(""), Resliced: true, Buf: a.Buf, AtStart: a.AtStart} // x[:0]: empty, but keeps x's backing array
 		}
-		return ByteSlice{T: m.strSlice(a.T, lot, hit), Resliced: true}
+		return ByteSlice{T: m.strSlice(m.current(a), lot, hit), Resliced: true, Buf: a.Buf, AtStart: a.AtStart && lo0}
 	}
 	if lot != nil {
 		lo = m.concInt("slice.lo", lot)
@@ -1258,6 +1274,17 @@ func (m *Machine) slice(f *Frame, in *ssa.Slice) Value {
 		arr := m.load(a)
 		switch av := arr.(type) {
 		case ByteArr:
+			if al, isAlloc := in.X.(*ssa.Alloc); isAlloc && al.Comment == "makeslice" && lo <= 0 && mx < 0 {
+				// make([]byte, n, N) with constant N: a fresh slice of n zero bytes; nothing else
+				// can name the array. (The capacity is not tracked for opaque bytes.)
+				if hi < 0 {
+					hi = av.N
+				}
+				if hi == 0 {
+					return m.freshBytes(m.strLit(""))
+				}
+				return m.freshBytes(m.zeroBytes(hi))
+			}
 			if (lo > 0) || (hi >= 0 && hi != av.N) {
 				panic(m.unsupported("sub-slicing an opaque [%d]byte", av.N))
 			}
